@@ -6,6 +6,9 @@ package main
 import (
 	"bytes"
 	"fmt"
+	"os"
+	"path/filepath"
+	"runtime/debug"
 	"strings"
 
 	"github.com/willabides/rjson"
@@ -327,6 +330,30 @@ func genTotal(c *genCtx) error {
 			}
 		}
 	}
+	// every level's deep member preceded by a sibling container (a reader that hands each level to a recycled child
+	// must still count the levels), far beyond the limit: the depth limit is what keeps the recursive decoders from
+	// exhausting the goroutine stack, so these run with the stack capped at 256 MB - a decoder within the 10,000-level
+	// limit needs a few MB - and a process that dies here is recorded through the CRASH file (never deleted on death)
+	oldMax := debug.SetMaxStack(256 << 20)
+	for i, o := range []string{"[[],", `{"s":{},"a":`, "[{},", `{"s":[1],"a":[[],`, `[[[]],{"a":[]},`} {
+		cl := []string{"]", "}", "]", "]}", "]"}[i]
+		for _, n := range []int{10_001, 2_000_000} {
+			for _, closed := range []int{0, 1} {
+				segs := []seg{{[]byte(o), n}, {[]byte("1"), 1}}
+				if closed == 1 {
+					segs = append(segs, seg{[]byte(cl), n})
+				}
+				var cj jb
+				cj.raw(`process died (fatal error, e.g. goroutine stack exhausted) in the entry points on the document `)
+				cj.segs(segs)
+				crash := filepath.Join(c.outDir, "CRASH")
+				os.WriteFile(crash, cj.b, 0o644)
+				runTotal(c.sw, &j, expandSegs(segs), segs, c.st)
+				os.Remove(crash)
+			}
+		}
+	}
+	debug.SetMaxStack(oldMax)
 	// megabyte runs of a single token / a single repeated unit
 	units := []string{"1", "0", " ", "\n", "a", "\\u0041", "\\n", "\\\\", "\\ud800", "\\udc00", "\\ud83d\\ude00", "\xff", "\x80",
 		"e", ".", "-", ",", ":", "\"", "\"\"", "[]", "{}", "[],", "null", "true", "9", "1e", "\\", "\\u", "\t", "\x00"}
